@@ -6,10 +6,13 @@
                                parsed from a block's own CID equals the multihash of the requested CID, the block's
                                identifier is the requested (height, row, column) (`u64` height, `u16` coordinates);
   * `accepted_block_is_committed_share` : C10 `mh_sample_sound` re-targeted from "the block's own CID" to "the requested
-                               CID" through `sampleId_of_mh`.
+                               CID" through `sampleId_of_mh`; the hash is assumed collision-free only RELATIVE TO a set `S`
+                               containing the inputs hashed for the stored squares and for the accepted block
+                               (`StoreCommits`, `sampleBlockInputs`; audit repair X1 — the former `HashOK` was contradictory).
 -/
 import Lumina.Props.C10
 import Lumina.Proofs.C15
+import Lumina.Proofs.ShwapSoundRows
 
 namespace Lumina.Proofs.SampledShares
 open Lumina.Util Lumina.Model.Nmt Lumina.Model.Eds Lumina.Model.ShwapId Lumina.Model.Decoders Lumina.Model.ShwapHasher
@@ -105,25 +108,44 @@ theorem sampleId_of_mh {cid : Cid} {id : SampleId} (hid : SampleId.ofCid cid = .
   subst k1; subst k2; subst k3
   rfl
 
-/-- every header a store holds commits (through its DAH) to the square `sq` of its height -/
-def StoreCommits (H : HashFn) (sq : Nat → Eds) (kk : Nat → Nat) (store : Nat → Option Dah) : Prop :=
+/-- the byte strings hashed when the multihasher verifies this block as a SAMPLE block: the leaf preimage and the
+    `hash_nodes` calls of the range-proof check of the decoded sample (`[]` when it does not decode: nothing is hashed) -/
+def sampleBlockInputs (H : HashFn) (P : Params) (blk : Bytes) : List Bytes :=
+  match Lumina.Proofs.ShwapSound.decodedSample P blk with
+  | some (_, s) => Lumina.Proofs.Sample.sampleInputs H s
+  | none => []
+
+/-- every header a store holds commits (through its DAH) to the square `sq` of its height, and the byte strings hashed
+    for that square's row and column trees belong to `S` (the set the hash is assumed collision-free on) -/
+def StoreCommits (H : HashFn) (S : Bytes → Prop) (sq : Nat → Eds) (kk : Nat → Nat) (store : Nat → Option Dah) : Prop :=
   ∀ h d, store h = some d → Dah.ofEds H (sq h) = .ok d ∧ (sq h).width = 2 ^ kk h ∧
-    ∀ sh ∈ (sq h).shares, NS_SIZE ≤ sh.data.length
+    (∀ sh ∈ (sq h).shares, NS_SIZE ≤ sh.data.length) ∧ ∀ y ∈ Lumina.Proofs.Eds.edsInputs H (sq h), S y
 
 /-- the data of a block is the committed share at `(p.1, p.2)` of the square of height `h` -/
 def CarriesCommittedShare (P : Params) (sq : Nat → Eds) (h : Nat) (p : Nat × Nat) (blk : Bytes) : Prop :=
   ∃ cidB cont raw smp sh, P.decodeBlock blk = some (cidB, cont) ∧ P.decodeSample cont = some raw ∧
     sampleFromRaw p.1 p.2 raw = .ok smp ∧ (sq h).share? p.1 p.2 = some sh ∧ sh.data = smp.share.data
 
+theorem decodedSample_eq {P : Params} {blk cidB cont : Bytes} {cid : Cid} {id : SampleId} {raw : RawSample}
+    {s : Lumina.Model.Sample.Sample} (h1 : P.decodeBlock blk = some (cidB, cont)) (h2 : Cid.read cidB = some cid)
+    (h3 : SampleId.ofCid cid = .ok id) (h4 : P.decodeSample cont = some raw)
+    (h5 : sampleFromRaw id.row.index id.column raw = .ok s) :
+    Lumina.Proofs.ShwapSound.decodedSample P blk = some (id, s) := by
+  simp only [Lumina.Proofs.ShwapSound.decodedSample, h1, h2, h3, h4, h5]
+
 /-- C10 `mh_sample_sound`, for the REQUESTED CID: a block for which the multihasher yields the multihash of
-    `sample_cid(p.1, p.2, h)` carries the committed share at `(p.1, p.2)` of the square of height `h` -/
-theorem accepted_block_is_committed_share {H : HashFn} (hk : HashOK H) (P : Params) {store : Nat → Option Dah}
-    {sq : Nat → Eds} {kk : Nat → Nat} (hstore : StoreCommits H sq kk store) {h : Nat} {p : Nat × Nat}
-    (hh : h < 2 ^ 64) (hr : p.1 < 2 ^ 16) (hc : p.2 < 2 ^ 16) {blk : Bytes}
-    (hok : multihash H P store SAMPLE_ID_MULTIHASH_CODE blk = .ok (mhBytes (sampleCid h p))) :
+    `sample_cid(p.1, p.2, h)` carries the committed share at `(p.1, p.2)` of the square of height `h`.  Hash hypothesis
+    (audit repair X1): 32-byte output and no collision among `S` ⊇ the inputs hashed for the stored squares
+    (`StoreCommits`) and by the verification of this block (`sampleBlockInputs`). -/
+theorem accepted_block_is_committed_share {H : HashFn} {S : Bytes → Prop} (hk : HashOKOn H S) (P : Params)
+    {store : Nat → Option Dah} {sq : Nat → Eds} {kk : Nat → Nat} (hstore : StoreCommits H S sq kk store) {h : Nat}
+    {p : Nat × Nat} (hh : h < 2 ^ 64) (hr : p.1 < 2 ^ 16) (hc : p.2 < 2 ^ 16) {blk : Bytes}
+    (hok : multihash H P store SAMPLE_ID_MULTIHASH_CODE blk = .ok (mhBytes (sampleCid h p)))
+    (hV : ∀ y ∈ sampleBlockInputs H P blk, S y) :
     CarriesCommittedShare P sq h p blk := by
   obtain ⟨cidB, cont, cid, id, raw, smp, h1, h2, h3, h4, h5, h6, sh, h7, h8⟩ :=
-    Lumina.Props.C10.mh_sample_sound hk P store sq kk hstore blk _ hok
+    Lumina.Props.C10.mh_sample_sound hk P store sq kk hstore blk _
+      (fun id s hd y hy => hV y (by simp only [sampleBlockInputs, hd]; exact hy)) hok
   have hid := sampleId_of_mh h3 hh hr hc h6.symm
   subst hid
   exact ⟨cidB, cont, raw, smp, sh, h1, h4, h5, h7, h8⟩
